@@ -262,7 +262,7 @@ class History(RuleBasedStateMachine):
             except Exception:
                 raised = True
         delivered = worker in inject.read_markers(md)['faults']
-        shutil.rmtree(md)
+        shutil.rmtree(md, ignore_errors=True)      # a sibling worker of a failed stage may still be writing its stamp
         self._check_inputs(what)
         self._check_outputs(ob, tag, what)
         if delivered:
